@@ -1,6 +1,7 @@
 import Oracle.C08
 import Oracle.C10
 import Oracle.C15
+import Oracle.C17
 import Oracle.C18
 /- Oracle: one operation per input line, one answer per output line. -/
 open Oracle
@@ -9,7 +10,7 @@ def dispatch (line : String) : String :=
   match words line with
   | [] => "bad-op"
   | cmd :: args =>
-    let hs : List (String → List String → Option String) := [C08.handle, C10.handle, C15.handle, C18.handle]
+    let hs : List (String → List String → Option String) := [C08.handle, C10.handle, C15.handle, C17.handle, C18.handle]
     match hs.findSome? (fun h => h cmd args) with
     | some r => r
     | none => "bad-op"
